@@ -12,6 +12,7 @@
 #include <stdio.h>
 #include <stdlib.h>
 #include <string.h>
+#include <sys/mman.h>
 
 // private/data_private.h; not exported by libdispatch.so on Linux: available only in the white-box (static) build
 extern const void *dispatch_data_get_flattened_bytes_4libxpc(dispatch_data_t data) __attribute__((weak));
@@ -205,6 +206,23 @@ int main(void) {
 			print_dlog(); printf("\n");
 		} else if (w[0][0] == 'O' && n >= 3) {
 			observe(strtoul(w[1], NULL, 16), strtoul(w[2], NULL, 16), w + 3, n - 3);
+		} else if (!strcmp(w[0], "ovf")) {
+			// total size 2^64: a 2^46-byte MAP_NORESERVE mapping concatenated with itself 18 times (2^18 records).
+			// The last concat must not return an object whose size wrapped (fixed: returns NULL).
+			size_t n46 = (size_t)1 << 46;
+			void *p = mmap(NULL, n46, PROT_READ, MAP_PRIVATE | MAP_ANONYMOUS | MAP_NORESERVE, -1, 0);
+			if (p == MAP_FAILED) { printf("ovf skip\n"); }
+			else {
+				dispatch_data_t d = dispatch_data_create(p, n46, NULL, ^{ munmap(p, n46); });
+				int i; dispatch_data_t e = d;
+				for (i = 0; i < 18 && e; i++) {
+					e = dispatch_data_create_concat(d, d);
+					if (e) { dispatch_release(d); d = e; }
+				}
+				if (!e) printf("ovf null at=%d size=%zx\n", i, dispatch_data_get_size(d));
+				else printf("ovf object size=%zx\n", dispatch_data_get_size(d));
+				dispatch_release(d);
+			}
 		} else if (!strcmp(w[0], "counts")) {   // destructor call counts of all leaves of this case
 			drain();
 			printf("counts");
